@@ -517,6 +517,11 @@ def r7_plain_store_size_matches_data(cx):
             cb = F.body(c)
             rp = cb.calls(r"Option::<usize>::replace$")
             ne = cb.calls(r"cmp::PartialEq.*>::(ne|eq)$")
+            # .. or without any memory: `keys.iter().enumerate().filter(|(pos, k)| *pos == 0 || keys[pos - 1] != **k)`
+            idx = [t_ for _, t_ in cb.calls(r"ops::Index<usize>>::index$") if ("const", 1) in cb.origins(t_["args"][1])]
+            nes = ne or [1 for blk_ in cb.blocks for st_ in blk_["s"] if st_["k"] == "assign" and st_["rv"]["k"] == "bin" and st_["rv"]["op"] == "Ne"]
+            if not rp and not gM and flt and idx and nes:
+                okw = True
             if len(rp) == 1 and len(ne) == 1 and flt and ("call", rp[0][0]) in (cb.origins(ne[0][1]["args"][0]) | cb.origins(ne[0][1]["args"][1])) \
                     and 0 in cb.whole_copies({ne[0][1]["dest"]["l"]}) | {ne[0][1]["dest"]["l"]} and callee_str(ne[0][1]).endswith("::ne"):
                 okw = True
